@@ -305,6 +305,8 @@ class Gen:
                 add("contract", "index")
             if free:
                 add("indexfree", "index", 2)
+            if "capture" in O and len(self.names) >= 3:
+                opts.extend(["capture"] * W.get("capture", 2))
             if not free:
                 add("inner", "compound", 2)
                 add("dotvv", "compound")
@@ -460,6 +462,44 @@ class Gen:
             rest = [n for n in free if n not in take]
             perm = list(self.draw(st.permutations(take)))
             return ["index", e((g,) * len(take), rest, d), perm]
+        if op == "capture":
+            # a component tensor whose body *binds* r (a contraction), indexed from outside by the same index r:
+            # as_tensor(A[r, j] * B[r], (j,))[r]  -- r then is either free outside or summed again
+            un = self.unused(free)
+            if free and self.chance(1, 2):
+                r = self.pick(list(free))
+                rest = tuple(n for n in free if n != r)
+                outer_sum = False
+            else:
+                if not un:
+                    return self.leaf(shape, free)
+                r = self.pick(un)
+                rest = tuple(free)
+                outer_sum = True
+            cand = [n for n in self.names if n != r and n not in rest]
+            if not cand:
+                return self.leaf(shape, free)
+            j = self.pick(cand)
+            inner_sum = ["mul", self.leaf((), (r, j)) if self.chance(1, 2) else e((), tuple(sorted((r, j))), min(d, 1)),
+                         self.leaf((), (r,))]
+            if rest:
+                inner_sum = ["mul", inner_sum, self.leaf((), rest)]
+            k = self.pick(["ct", "ct", "sumct", "fixed"])
+            ct = ["as_tensor", inner_sum, [j]]
+            if k == "sumct":
+                ct = ["add", ct, self.leaf((g,), ())]
+            if k == "fixed":
+                # the free index j of the body is replaced by a fixed index while the body also sums over it elsewhere
+                body = ["mul", ["index", self.leaf((g,), ()), [j]],
+                        ["mul", self.leaf((), (j, r)) if self.chance(1, 2) else ["index", self.leaf((g, g), ()), [j, j]], ["lit", 1]]]
+                return ["mul", ["index", ["as_tensor", ["mul", self.leaf((), (j,)), ["index", self.leaf((g, g), ()), [r, r]]], [j]],
+                                [self.draw(st.integers(0, g - 1))]], self.leaf((), free)] if free else \
+                    ["index", ["as_tensor", ["mul", self.leaf((), (j,)), ["index", self.leaf((g, g), ()), [r, r]]], [j]],
+                     [self.draw(st.integers(0, g - 1))]]
+            x = ["index", ct, [r]]
+            if outer_sum:
+                return ["mul", x, self.leaf((), (r,))]
+            return x
         if op == "inner":
             sh = self.pick([(g,), (g, g)] if self.p.max_rank >= 2 else [(g,)])
             return [self.pick(["inner", "inner", "dot"]) if len(sh) == 1 else "inner", e(sh, (), d), e(sh, (), d)]
